@@ -23,6 +23,8 @@ pub const REVERSED: u8 = 8;
 /// `0xC0 | (k << 32)`: bin 0 up to 64 bins, moves as a whole to the HIGH half at 64 -> 128 and
 /// again at 128 -> 256
 pub const ALLHIGH: u8 = 9;
+/// `k / 1000`: keys of one thousand share a hash (many equal tree bins side by side; litmus only)
+pub const CLASS: u8 = 10;
 pub const ALL_MODES: [u8; 10] = [UNIFORM, IDENTITY, CONSTANT, SAMEBIN, HIGHBITS, MIXED, SPLITTING, MODGROUPS, REVERSED, ALLHIGH];
 /// the modes that crowd one bin
 pub const CROWDED_MODES: [u8; 7] = [CONSTANT, SAMEBIN, MIXED, SPLITTING, MODGROUPS, REVERSED, ALLHIGH];
@@ -39,6 +41,7 @@ pub fn mode_name(m: u8) -> &'static str {
         MODGROUPS => "modgroups",
         REVERSED => "reversed",
         ALLHIGH => "allhigh",
+        CLASS => "class",
         _ => "?",
     }
 }
@@ -54,6 +57,7 @@ pub fn hash_of(mode: u8, k: u64) -> u64 {
         MODGROUPS => (k % 5) << 32,
         REVERSED => (0xffff - (k & 0xffff)) << 32,
         ALLHIGH => 0xC0 | (k << 32),
+        CLASS => k / 1000,
         _ => ((k % 4) << 6) | ((k / 4) << 32),
     }
 }
